@@ -217,10 +217,14 @@ where
                                     panic!("sink must not send data");
                                 },
                                 Message::Pull => {
-                                    let source_talkback = source_talkback.load();
-                                    let source_talkback =
-                                        source_talkback.as_ref().expect("source talkback not set");
-                                    call!(source_talkback, Message::Pull, "to source: {message:?}");
+                                    // none while the upstream's own end is being relayed
+                                    if let Some(source_talkback) = &*source_talkback.load() {
+                                        call!(
+                                            source_talkback,
+                                            Message::Pull,
+                                            "to source: {message:?}"
+                                        );
+                                    }
                                 },
                                 Message::Error(_) | Message::Terminate => {
                                     {
@@ -237,15 +241,13 @@ where
                                         }
                                     }
                                     if sinks.load().is_empty() {
-                                        let source_talkback = source_talkback.load();
-                                        let source_talkback = source_talkback
-                                            .as_ref()
-                                            .expect("source talkback not set");
-                                        call!(
-                                            source_talkback,
-                                            Message::Terminate,
-                                            "to source: {message:?}"
-                                        );
+                                        if let Some(source_talkback) = source_talkback.swap(None) {
+                                            call!(
+                                                source_talkback,
+                                                Message::Terminate,
+                                                "to source: {message:?}"
+                                            );
+                                        }
                                     }
                                 },
                             }
@@ -273,6 +275,9 @@ where
                                     // from inside a handler starts a fresh subscription
                                     let sinks = if let Message::Error(_) | Message::Terminate = message
                                     {
+                                        // the upstream is over: a sink that acts before this
+                                        // message has reached it must not be relayed to it
+                                        source_talkback.store(None);
                                         sinks.swap(Arc::new(vec![]))
                                     } else {
                                         sinks.load_full()
